@@ -103,6 +103,7 @@ type SideImg struct {
 type Change struct {
 	S    string  `json:"s"`
 	Info InfoRec `json:"info"`
+	IC   bool    `json:"ic"` // the store info changed (its count did): it is rewritten, replicated and logged
 	Add  []HRec  `json:"add"`
 	Set  []HRec  `json:"set"`
 	Rem  []HRec  `json:"rem"`
@@ -140,6 +141,7 @@ type runner struct {
 }
 
 type openTxn struct {
+	act   int // active folder (1-based) when the transaction was created: the folder its tracker writes to
 	tx    sop.Transaction
 	trees map[string]btree.BtreeInterface[int, int]
 	put   map[string]map[int]int
@@ -249,7 +251,7 @@ func diffImages(a0, a1 FolderImage) []Change {
 		for _, i := range a1.Reg[n] {
 			m1[lidOf(i)] = i
 		}
-		ch := Change{S: n, Info: splitInfo(a1.Info[n]), Add: []HRec{}, Set: []HRec{}, Rem: []HRec{}}
+		ch := Change{S: n, Info: splitInfo(a1.Info[n]), IC: a0.Info[n] != a1.Info[n], Add: []HRec{}, Set: []HRec{}, Rem: []HRec{}}
 		for lid, i := range m1 {
 			if o, ok := m0[lid]; !ok {
 				ch.Add = append(ch.Add, HRec{lid, i})
@@ -283,18 +285,9 @@ func (r *runner) begin(st Step) {
 		r.emit(Event{"ev": "Error", "what": "begin", "t": st.T, "err": err.Error()})
 		return
 	}
-	r.txns[st.T] = &openTxn{tx: tx, trees: map[string]btree.BtreeInterface[int, int]{}, put: map[string]map[int]int{},
+	r.txns[st.T] = &openTxn{act: r.act(), tx: tx, trees: map[string]btree.BtreeInterface[int, int]{}, put: map[string]map[int]int{},
 		del: map[string]map[int]bool{}}
 	r.emit(Event{"ev": "Begin", "t": st.T})
-}
-
-func (r *runner) storeExists(s string) bool {
-	for _, n := range readFolder(r.activeFolder()).List {
-		if n == s {
-			return true
-		}
-	}
-	return false
 }
 
 // open (or create) store s inside transaction t
@@ -306,14 +299,18 @@ func (r *runner) open(st Step) btree.BtreeInterface[int, int] {
 	if b, ok := ot.trees[st.S]; ok {
 		return b
 	}
-	existed := r.storeExists(st.S)
+	taf, tpf := r.l.Folders[ot.act-1], r.l.Folders[2-ot.act]
+	existed := false
+	for _, n := range readFolder(taf).List {
+		existed = existed || n == st.S
+	}
 	var undo func()
 	if !existed && st.Op == "create" {
 		switch st.Fault {
 		case "list-dir":
-			undo = blockWithDir(filepath.Join(r.passiveFolder(), "storelist.txt"))
+			undo = blockWithDir(filepath.Join(tpf, "storelist.txt"))
 		case "store-file":
-			undo = blockWithFile(filepath.Join(r.passiveFolder(), st.S))
+			undo = blockWithFile(filepath.Join(tpf, st.S))
 		}
 	}
 	b, err := infs.NewBtreeWithReplication[int, int](r.ctx, sop.StoreOptions{Name: st.S, SlotLength: r.slot, IsUnique: true,
@@ -326,7 +323,7 @@ func (r *runner) open(st Step) btree.BtreeInterface[int, int] {
 		if undo != nil {
 			pf = st.Fault
 		}
-		ai := readFolder(r.activeFolder())
+		ai := readFolder(taf)
 		es := ""
 		if err != nil {
 			es = err.Error()
@@ -364,7 +361,7 @@ func (r *runner) work(st Step) {
 		n = 1
 	}
 	fail := func(err error) {
-		r.emit(Event{"ev": "Error", "what": "work:" + st.Kind, "t": st.T, "s": st.S, "err": err.Error()})
+		r.emit(Event{"ev": "WorkFailed", "what": st.Kind, "t": st.T, "s": st.S, "err": err.Error()})
 	}
 	switch st.Kind {
 	case "add":
@@ -435,7 +432,8 @@ func (r *runner) commit(st Step) {
 		return
 	}
 	delete(r.txns, st.T)
-	af, pfold := r.activeFolder(), r.passiveFolder()
+	// the folders as the transaction's own tracker sees them
+	af, pfold := r.l.Folders[ot.act-1], r.l.Folders[2-ot.act]
 	a0 := readFolder(af)
 	pf := "none"
 	var undo func()
@@ -511,6 +509,16 @@ func (r *runner) drop(st Step) {
 }
 
 func (r *runner) wipe() {
+	if g := fs.GlobalReplicationDetails; g == nil || !g.FailedToReplicate {
+		r.emit(Event{"ev": "Note", "what": "wipe skipped: replication is on (only a failed drive gets replaced)"})
+		return
+	}
+	for _, ot := range r.txns {
+		if ot.act != r.act() {
+			r.emit(Event{"ev": "Note", "what": "wipe skipped: an open transaction still writes to that folder"})
+			return
+		}
+	}
 	p := r.passiveFolder()
 	os.RemoveAll(p)
 	os.MkdirAll(p, 0o755)
